@@ -19,6 +19,20 @@ pub fn verif_root() -> PathBuf {
     PathBuf::from(std::env::var("VERIF_ROOT").unwrap_or_else(|_| "/verif".into()))
 }
 
+/// Where replays and evidence go (default: the verif root). Shadow runs
+/// against a scratch copy of the repository point this elsewhere.
+pub fn out_root() -> PathBuf {
+    std::env::var("VERIF_OUT_DIR")
+        .map(PathBuf::from)
+        .unwrap_or_else(|_| verif_root())
+}
+
+/// The repository under test (only used to locate its octet vectors in
+/// selftest; the code itself is linked as a path dependency).
+pub fn repo_root() -> PathBuf {
+    PathBuf::from(std::env::var("VERIF_REPO").unwrap_or_else(|_| "/repo".into()))
+}
+
 pub fn bin_for(p: Profile) -> PathBuf {
     let dir = match p {
         Profile::Dev => "debug",
@@ -704,7 +718,7 @@ pub fn check_main(sc: &DynScenario, o: &CheckOpts) -> i32 {
     }
 
     let known = load_known();
-    let replay_dir = verif_root().join("replays");
+    let replay_dir = out_root().join("replays");
     let _ = std::fs::create_dir_all(&replay_dir);
     let mut violations = 0u32;
     let mut known_hits = 0u32;
@@ -1020,7 +1034,7 @@ fn write_evidence(
         "wall_s": (wall * 100.0).round() / 100.0,
         "violations": violations,
     });
-    let dir = verif_root().join("evidence");
+    let dir = out_root().join("evidence");
     let _ = std::fs::create_dir_all(&dir);
     let p = dir.join(format!("{}.json", sc.id));
     let _ = std::fs::write(p, serde_json::to_vec_pretty(&ev).unwrap());
